@@ -7,12 +7,12 @@ CONSTANTS
   Limit = 3
   Window = 4
   MaxRound = 3
-  MaxSnaps = 8
+  MaxSnaps = 6
   MaxEarly = 1
   Late = {}
   MaxPub = 1
-  MaxAhead = 1
-  Interleave = FALSE
+  MaxAhead = 0
+  Interleave = TRUE
   Faults = FALSE
   RefChoice = FALSE
   RemoteAnytime = FALSE
